@@ -310,6 +310,7 @@ class EqualityComparer:
                 and expr1.shape == expr2.shape
                 and expr1.dtype == expr2.dtype
                 and expr1.tags == expr2.tags
+                and expr1.axes == expr2.axes
                 )
 
     def map_function_definition(
